@@ -30,7 +30,8 @@ def simulate(M, prog, case):
     if reg == 'Q<P': M.assume(z3.ULT(Q, P))
     elif reg == 'Q=P': M.assume(Q == P)
     elif reg == 'P<Q<2P': M.assume(z3.And(z3.UGT(Q, P), z3.ULT(Q, 2 * P)))
-    elif reg == '2P<=Q<3P': M.assume(z3.And(z3.UGE(Q, 2 * P), z3.ULT(Q, 3 * P)))
+    elif reg == 'Q=2P': M.assume(Q == 2 * P)
+    elif reg == '2P<Q<3P': M.assume(z3.And(z3.UGT(Q, 2 * P), z3.ULT(Q, 3 * P)))
     spec = Spec(sym_modes=False, sym_away=False, sym_ranks=False, sym_lists=False, sym_flags=False, sym_key=False, sym_limit=False, sym_topic=False, sym_invites=False,
                 sym_max_joins=False, sym_caps=False, sym_preconf=False, plain_chans=['#x', '&y'], ping_timeout=P, pong_timeout=Q)
     w = World(M, prog, spec, partial={'exists_#x': False, 'exists_&y': False})
@@ -50,20 +51,25 @@ def simulate(M, prog, case):
     if behaviour == 'late':
         M.assume(z3.UGT(delta, Q)); M.assume(z3.ULE(delta, Q + P))
     elif behaviour != 'silent':
-        M.assume(z3.ULT(delta, Q)); M.assume(z3.ULT(delta, P))
+        # answers within pong_timeout - possibly later than the next PING(s) when pong_timeout > ping_timeout; the delay band keeps the order of events decided
+        M.assume(z3.ULT(delta, Q))
+        band = case.get('band', 'd<P')
+        M.assume({'d<P': z3.ULT(delta, P), 'd=P': delta == P, 'P<d<2P': z3.And(z3.UGT(delta, P), z3.ULT(delta, 2 * P)), 'd=2P': delta == 2 * P,
+                  '2P<d': z3.UGT(delta, 2 * P)}[band])
     seen = 0; answered = 0
     log = []; pings = []; quit_time = None; error_line = False
     conn_fut = None
     periods = case['periods']
     horizon = add(M, P * periods, add(M, Q, 1))
-    tie = False
+    tie = False; owner = {}; due_owners = set()
     for rnd in range(400):
         # several timers due at the same instant: the runtime may run the tasks, and select! may look at its branches, in any order
         perm = None
         if tie:
             M.env['select_start'] = 1 + M.choose(2, 'select_order')        # 1: ping branch first, 2: timeout branch first
             import itertools
-            live = [t for t in tasks if not t['done']]
+            # only the tasks whose timer is due now can make a difference (the others stay pending whatever the order)
+            live = [t for t in tasks if not t['done'] and id(t) in due_owners]
             perms = list(itertools.permutations(['conn'] + live))[:24]
             perm = perms[M.choose(len(perms), 'task_order')] if len(perms) > 1 else perms[0]
         else:
@@ -75,17 +81,20 @@ def simulate(M, prog, case):
             if not (isinstance(q, int) and q == 0):
                 quit_time = ck.now
                 break
-            units = list(perm) if (perm is not None and inner == 0) else ['conn'] + list(tasks)
+            units = (list(perm) + [t for t in tasks if not any(t is u for u in perm)]) if (perm is not None and inner == 0) else ['conn'] + list(tasks)
             for t in units:
+                ntm = len(M.env['timers'])
                 if t == 'conn':
                     if conn_fut is None: conn_fut = Cell(w.start_process(conn))
                     r = poll_future(M, Ref(conn_fut), cx)
+                    for tm in M.env['timers'][ntm:]: owner[id(tm)] = 'conn'
                     if r.variant == 0:
                         conn_fut = None; act = True
                     continue
                 if t['done']: continue
                 if id(t) not in tcells: tcells[id(t)] = Cell(t['fut'])
                 r = poll_future(M, Ref(tcells[id(t)]), cx)
+                for tm in M.env['timers'][ntm:]: owner[id(tm)] = id(t)
                 if r.variant == 0:
                     t['done'] = True; act = True
                     M.drop_value(tcells[id(t)].v)
@@ -104,10 +113,10 @@ def simulate(M, prog, case):
             if not act and M.env.get('activity', 0) == a0: break
         if quit_time is not None: break
         # advance the clock to the earliest deadline that is still ahead
-        ahead = []
+        ahead = []; who = []
         for t in M.env['timers']:
             d = t.deadline
-            if not M.branch(le(M, d, ck.now)): ahead.append(d)
+            if not M.branch(le(M, d, ck.now)): ahead.append(d); who.append(owner.get(id(t)))
         M.env['timers'] = []
         if not ahead: break
         best = ahead[0]
@@ -115,9 +124,11 @@ def simulate(M, prog, case):
             if M.branch(z3.ULT(d, best) if is_sym(d) or is_sym(best) else d < best): best = d
         if not M.branch(le(M, best, horizon)):
             break
-        tie = False
-        for d in ahead:
-            if d is not best and M.branch(d == best if (is_sym(d) or is_sym(best)) else d == best): tie = True
+        tie = False; due_owners = set()
+        for d, o in zip(ahead, who):
+            if d is best or M.branch(d == best if (is_sym(d) or is_sym(best)) else d == best):
+                due_owners.add(o)
+        tie = len(due_owners) > 1
         ck.now = best
     return dict(P=P, Q=Q, quit_time=quit_time, pings=pings, error=error_line, log=log, now=ck.now, delta=delta)
 
@@ -151,7 +162,6 @@ def p_keepalive(prog, case, budget):
                     else:
                         obs.append(('keepalive:dead-peer', f'a client silent since its PING number {k + 1} is disconnected no later than pong_timeout after that PING', z3.ULE(res['quit_time'], dl)))
                         obs.append(('keepalive:error', 'the dropped client is sent an ERROR first', res['error']))
-                        obs.append(('keepalive:not-early', 'the client is not dropped before pong_timeout has passed', z3.UGE(res['quit_time'], dl)))
         else:
             obs.append(('keepalive:live-peer', 'a client that answers every PING within pong_timeout is never disconnected', res['quit_time'] is None))
             obs.append(('keepalive:ping', 'PINGs keep coming every ping_timeout seconds', len(res['pings']) >= case['periods']))
@@ -161,7 +171,7 @@ def p_keepalive(prog, case, budget):
             v, md = check_valid(M, term, st)
             if not v and md is not None:
                 findings.append(dict(kind='obligation', site=oid, what=f'{case["name"]}: {desc}', predicate=oid + '|' + case['regime'],
-                                     witness=dict(case=case['name'], P=md.eval(P, True).as_long(), Q=md.eval(Q, True).as_long(), delta=md.eval(res['delta'], True).as_long(),
+                                     witness=dict(case=case['name'], client=case['client'], band=case.get('band'), P=md.eval(P, True).as_long(), Q=md.eval(Q, True).as_long(), delta=md.eval(res['delta'], True).as_long(),
                                                   log=[(a, str(md.eval(b, True)) if is_sym(b) else b) for a, b in res['log']][:12],
                                                   quit_time=(str(md.eval(res['quit_time'], True)) if is_sym(res['quit_time']) else res['quit_time']), profile=prog.profile)))
         if len(samples) < 1:
@@ -186,20 +196,59 @@ def j_ping_pong(ctx):
 def make_cases(tier, profile):
     cases = []
     periods = 2 if tier == 'quick' else 4
-    for regime in ['Q<P', 'Q=P', 'P<Q<2P', '2P<=Q<3P']:
+    bands = {'Q<P': ['d<P'], 'Q=P': ['d<P'], 'P<Q<2P': ['d<P', 'd=P', 'P<d<2P'], 'Q=2P': ['d<P', 'd=P', 'P<d<2P'], '2P<Q<3P': ['d<P', 'd=P', 'P<d<2P', 'd=2P', '2P<d']}
+    if tier == 'quick': bands.update({'Q=2P': ['d<P', 'P<d<2P'], '2P<Q<3P': ['d<P', 'P<d<2P']})
+    for regime in ['Q<P', 'Q=P', 'P<Q<2P', 'Q=2P', '2P<Q<3P']:
         cases.append(dict(name=f'silent client, {regime}', pure='keepalive', regime=regime, client='silent', periods=periods))
-        cases.append(dict(name=f'client answering every PING, {regime}', pure='keepalive', regime=regime, client='answers', periods=periods))
-        cases.append(dict(name=f'client that stops after one answer, {regime}', pure='keepalive', regime=regime, client=('stops_after', 1), periods=periods + 1))
         cases.append(dict(name=f'client answering later than pong_timeout, {regime}', pure='keepalive', regime=regime, client='late', periods=periods))
+        for b in bands[regime]:
+            cases.append(dict(name=f'client answering every PING after a delay {b}, {regime}', pure='keepalive', regime=regime, client='answers', band=b, periods=periods))
+            cases.append(dict(name=f'client that stops after one answer (delay {b}), {regime}', pure='keepalive', regime=regime, client=('stops_after', 1), band=b, periods=periods + 1))
     spec = dict(sym_caps=False, sym_max_joins=False, sym_topic=False, sym_key=False, sym_limit=False, sym_lists=False, sym_flags=False, sym_ranks=False, sym_invites=False, sym_away=False,
                 sym_modes=False, plain_chans=['#x', '&y'], nicks=['alice', 'bob', 'carol'])
     for l in ['PING tok', 'PING :a token with blanks', 'PING :', 'PING x y', 'PING é']:
         cases.append(dict(name=l, line=l, judges=['no_panic', 'ping_pong'], spec=spec))
     return cases
 
-BOUNDS = dict(durations='ping_timeout P and pong_timeout Q symbolic 64-bit seconds in [1, 2^20], in the four regimes Q<P, Q=P, P<Q<2P, Q>=2P; the answer delay of a responsive client symbolic below min(P, Q)',
+BOUNDS = dict(durations='ping_timeout P and pong_timeout Q symbolic 64-bit seconds in [1, 2^20], in the four regimes Q<P, Q=P, P<Q<2P, Q=2P, 2P<Q<3P (Q>=3P outside); the answer delay of a responsive client symbolic below Q, split into bands (d<P, d=P, P<d<2P, d=2P, 2P<d) so that it may exceed the ping period when Q>P',
               horizon='2 (4) ping periods plus pong_timeout; clients: silent, answering every PING, stopping after one answer',
               outside='real scheduling slack (virtual time has none), other traffic on the connection during the wait, tokio time/interval/timeout/oneshot/spawn themselves (modelled by their documented contract)')
+
+def native_live(run, P, Q, delay, stop_after=None):
+    """real server, real clock: a client answering every PING `delay` seconds later (delay < Q) must stay connected;
+    with stop_after=k it answers only the first k PINGs and must be dropped within Q of the first PING it did not answer"""
+    import time as _t
+    from mirsym import ircreplay as R
+    from mirsym.world import Spec
+    exe = run.snap.build_server(False)
+    srv = R.Server(exe, R.make_config(Spec(ping_timeout=P, pong_timeout=Q), {}, {}, None), run.snap.dir, tag='live')
+    try:
+        c = R.Client(srv.port, 'live')
+        c.send('NICK live'); c.send('USER live 0 * :Live')
+        c.barrier()
+        t0 = _t.time(); due = []; pings = 0; err = None; first_unanswered = None; t_end = None
+        horizon = (3 * P + Q + 1.5) if stop_after is None else ((stop_after + 2) * P + 2 * Q + 1.5)
+        while _t.time() - t0 < horizon:
+            for l in c._read_lines(0.05):
+                if b' PING ' in l or l.startswith(b'PING'):
+                    pings += 1
+                    if stop_after is None or pings <= stop_after: due.append(_t.time() + delay)
+                    elif first_unanswered is None: first_unanswered = _t.time()
+                if b'ERROR' in l: err = l; t_end = _t.time()
+            while due and due[0] <= _t.time():
+                due.pop(0); c.send('PONG :LALAL')
+            if c.eof or err: break
+        dropped = bool(err) or c.eof
+        c.close()
+        if pings == 0: return None, 'no PING seen'
+        if stop_after is not None:
+            if first_unanswered is None: return None, 'the client was dropped before it stopped answering'
+            if not dropped: return True, f'P={P} Q={Q} delay {delay}s, silent after {stop_after} answer(s): still connected {round(_t.time() - first_unanswered, 1)}s after the first unanswered PING (limit {Q}s)'
+            late = (t_end or _t.time()) - first_unanswered
+            return (late > Q + 1.2), f'P={P} Q={Q} delay {delay}s, silent after {stop_after} answer(s): dropped {round(late, 2)}s after the first unanswered PING (limit {Q}s)'
+        return dropped, f'P={P} Q={Q} answer delay {delay}s: ' + (f'dropped after {round(_t.time() - t0, 1)}s ({err!r})' if dropped else f'still connected after {pings} PINGs')
+    finally:
+        srv.stop()
 
 def native_timer(run, P, Q, rounds=1):
     """real server, real clock: a silent client must be dropped about Q seconds after its first PING"""
@@ -228,22 +277,57 @@ def native_timer(run, P, Q, rounds=1):
         srv.stop()
 
 def native_replay(run, rp):
+    if rp.get('kind') == 'live': return native_live(run, rp['P'], rp['Q'], rp['delay'], rp.get('stop_after'))
     return native_timer(run, rp['P'], rp['Q'])
 
 def confirm(run, cands):
+    # differential validation of the timer models on the real clock: a silent client with P=1 s, Q=2 s (a regime where PINGs overlap the wait)
+    if not any(f['site'].startswith('keepalive:dead-peer') for f in cands):
+        try:
+            bad, text = native_timer(run, 1, 2)
+        except Exception as e:
+            bad, text = None, 'native timer run failed: ' + repr(e)[:300]
+        run.extra['native_timer_validation'] = text
+        if bad is False: run.native_replays += 1; run.validation_vectors += 1
+        else: run.inconclusive.append('ENCODER-MISMATCH: the virtual-clock model predicts a drop pong_timeout after the first unanswered PING, the real server: ' + str(text))
     for f in cands:
         fi = Finding(PROP, f['kind'], f['site'], f['what'], f['witness'], role=dict(predicate=f.get('predicate', '')))
         w = f['witness']
-        if f['site'].startswith('keepalive:dead-peer'):
+        if f['site'].startswith('keepalive:dead-peer') and isinstance(w.get('client'), (tuple, list)):
+            reg = f.get('predicate', '').split('|')[-1]
+            P, Q = {'Q<P': (3, 2), 'Q=P': (2, 2), 'P<Q<2P': (2, 3), 'Q=2P': (1, 2), '2P<Q<3P': (2, 5)}.get(reg, (2, 2))
+            frac = (w.get('delta', 0) / w['Q']) if w.get('Q') else 0.5
+            delay = round(min(Q - 0.4, max(0.0, frac * Q)), 2)
+            try:
+                okk, text = native_live(run, P, Q, delay, stop_after=w['client'][1])
+            except Exception as e:
+                okk, text = None, 'native run failed: ' + repr(e)[:300]
+            fi.confirmed = True if okk else None; fi.native = text
+            fi.replay = dict(kind='live', P=P, Q=Q, delay=delay, stop_after=w['client'][1])
+            if okk: run.native_replays += 1
+        elif f['site'].startswith('keepalive:dead-peer'):
             # replay on the real clock with small durations of the same regime
             reg = f.get('predicate', '').split('|')[-1]
-            P, Q = {'Q<P': (3, 1), 'Q=P': (2, 2), 'P<Q<2P': (2, 3), '2P<=Q<3P': (1, 3)}.get(reg, (2, 2))
+            P, Q = {'Q<P': (3, 1), 'Q=P': (2, 2), 'P<Q<2P': (2, 3), 'Q=2P': (1, 2), '2P<Q<3P': (2, 5)}.get(reg, (2, 2))
             try:
                 okk, text = native_timer(run, P, Q)
             except Exception as e:
                 okk, text = None, 'native timer run failed: ' + repr(e)[:300]
             fi.confirmed = True if okk else None; fi.native = text
             fi.replay = dict(kind='timer', P=P, Q=Q)
+            if okk: run.native_replays += 1
+        elif f['site'].startswith('keepalive:live-peer'):
+            reg = f.get('predicate', '').split('|')[-1]
+            # small durations of the same regime; the answer delay scaled from the counterexample (delta/Q of the way to pong_timeout)
+            P, Q = {'Q<P': (3, 2), 'Q=P': (2, 2), 'P<Q<2P': (2, 3), 'Q=2P': (1, 2), '2P<Q<3P': (2, 5)}.get(reg, (2, 2))
+            frac = (w.get('delta', 0) / w['Q']) if w.get('Q') else 0.5
+            delay = round(min(Q - 0.4, max(0.0, frac * Q)), 2)
+            try:
+                okk, text = native_live(run, P, Q, delay)
+            except Exception as e:
+                okk, text = None, 'native run failed: ' + repr(e)[:300]
+            fi.confirmed = True if okk else None; fi.native = text
+            fi.replay = dict(kind='live', P=P, Q=Q, delay=delay)
             if okk: run.native_replays += 1
         elif 'world' in w:
             from mirsym import ircreplay
